@@ -13,7 +13,7 @@ ASSUMPTIONS = ["vlib/wire.py is a correct strict RFC 1035 parser (cross-checked 
 
 
 def floors(tier):
-    n = 2000 if tier == "quick" else 100000
+    n = 12000 if tier == "quick" else 600000
     return {"c01.accept_reject": n, "c01.own_decoder": n, "c01.independent_decoder": n}
 
 
